@@ -5625,6 +5625,12 @@ impl PeerConnectionInner {
         for transport in extra_ice {
             transport.stop();
         }
+
+        // The cooperative signals above end the tasks that are running. A task
+        // that subscribed to a state only after it had already become terminal
+        // (close() before the connection task was first polled) never sees a
+        // change and would stay parked until the last handle is dropped.
+        self.abort_tracked_tasks();
     }
 }
 
